@@ -127,6 +127,13 @@ def build():
         xgi.write_hif(baseH(), p)
         return xgi.read_hif(p, nodetype=int, edgetype=int)
 
+    def rd_hif_coll():
+        d = _path("coll")
+        os.makedirs(d, exist_ok=True)
+        xgi.write_hif_collection({"a": baseH(), "b": Hy({3: [1, 2], 0: [2]})}, d, collection_name="c")
+        return xgi.read_hif_collection(os.path.join(d, "c_collection_information.json"), nodetype=int, edgetype=int)["a"]
+
+    P["H:read_hif_collection"] = rd_hif_coll
     P["H:read_edgelist"] = rd_edgelist
     P["H:read_bipartite_edgelist"] = rd_bip
     P["H:read_bipartite_edgelist-dual"] = rd_bip_dual
@@ -298,6 +305,28 @@ def names(prefix):
     if _PROV is None:
         _PROV = build()
     return [k for k in _PROV if k.startswith(prefix)]
+
+
+def uncovered_producers():
+    """Public xgi callables whose name says they produce a network but which the catalogue above does not use
+    (reported in the C04 evidence so that a new converter / reader / generator is noticed)."""
+    import inspect
+    import re
+
+    import xgi
+
+    src = open(__file__).read()
+    pat = re.compile(r"(from_|read_|to_hypergraph|to_dihypergraph|to_simplicial|load_|random_(?!layout)|uniform_(?!h_eig)|fast_random|chung|"
+                     r"dcsbm|watts|complete_|trivial_|empty_|ring_|star_|sunflower|flag_|complement|shuffle_|node_swap|"
+                     r"convert_labels|cut_to|k_skel|largest_connected_hyper|subhyper)")
+    out = []
+    for n in sorted(dir(xgi)):
+        f = getattr(xgi, n)
+        if n.startswith("_") or not callable(f) or inspect.isclass(f) or inspect.ismodule(f):
+            continue
+        if pat.match(n) and ("xgi." + n + "(") not in src:
+            out.append(n)
+    return out
 
 
 def usable(prefix):
